@@ -1,7 +1,7 @@
 package main
 
 // Component `loadcfg` (C10 start-up part).
-// case : unk=<0|1> ups=<tag:hasaddr,…|-> dss=<tag,…|-> rules=<domain/forward/reject;…|-> via=<run|bin>   ("_" = empty string)
+// case : unk=<0|1> ups=<tag:hasaddr,…|-> dss=<tag,…|-> rules=<domain/forward/reject;…|-> via=<run|bin> [docs=2]   ("_" = empty string)
 // out  : ok | rejected
 // via=run : the real router.run through the VerifRun hook (fast).
 // via=bin : the REAL binary (`mosproxy router -c <yaml>`, built by /verif/check from /repo, path in $MOSPROXY_BIN):
@@ -94,6 +94,13 @@ func runLoadCfg(cs string) string {
 		if m["unk"] == "1" && len(rules) == 0 {
 			y.WriteString("no_such_section:\n  x: 1\n")
 		}
+		if m["docs"] == "2" { // a second YAML document: valid settings, or an unknown key, after a "---" line
+			if len(rules)%2 == 0 {
+				y.WriteString("---\nrules:\n  - reject: 3\n")
+			} else {
+				y.WriteString("---\nno_such_key: 1\n")
+			}
+		}
 		cfgPath := filepath.Join(tmp, "cfg.yaml")
 		os.WriteFile(cfgPath, []byte(y.String()), 0o600)
 		cmd := exec.Command(bin, "router", "-c", cfgPath)
@@ -181,7 +188,11 @@ func genLoadCfg(r *rand.Rand, thorough bool, emit func(c, cat string)) {
 			dss = append(dss, tag)
 		}
 		for i := r.Intn(4); i > 0; i-- {
-			rules = append(rules, fmt.Sprintf("%s/%s/%d", pick(5), pick(5), []int{0, 0, 3, 5}[r.Intn(4)]))
+			rej := []int{0, 0, 3, 5}[r.Intn(4)]
+			if r.Intn(8) == 0 { // values that are not rcodes
+				rej = []int{15, 16, 17, 255, 512, 2048, 4095, 4096, 65535, 65536, 65541, 1 << 20}[r.Intn(12)]
+			}
+			rules = append(rules, fmt.Sprintf("%s/%s/%d", pick(5), pick(5), rej))
 		}
 		j := func(l []string, sep string) string {
 			if len(l) == 0 {
@@ -196,6 +207,9 @@ func genLoadCfg(r *rand.Rand, thorough bool, emit func(c, cat string)) {
 	}
 	for i := 0; i < nbin; i++ {
 		emit(mk("bin", i%2), fmt.Sprintf("bin-unk%d", i%2))
+	}
+	for i := 0; i < 2+nbin/6; i++ {
+		emit(mk("bin", 0)+" docs=2", "bin-twodocs")
 	}
 }
 
